@@ -83,7 +83,9 @@ def opDtw (j : Json) : Except String Json := do
   let mut out : List (String × Json) := [("model", costJ model), ("spec", costJ spec),
     ("specFull", costJ specFull), ("ed", costJ ed)]
   if getBoolD j "wantMat" false then
-    out := out ++ [("matP", rowsJ (matP g m r)), ("matU", rowsJ (matU g r))]
+    let w := wpsModel g m
+    out := out ++ [("matP", rowsJ w.mat), ("matU", rowsJ (matU g r)), ("wpsD", costJ w.d),
+      ("neg", Json.arr (w.neg.map fun p => Json.arr #[Json.num p.1, Json.num p.2]).toArray)]
   return Json.mkObj out
 
 def dispatch (j : Json) : Except String Json := do
